@@ -16,7 +16,7 @@ RULE = ('Loop trees are obtained with the real X12ContextReader from generated d
         'Segment/Composite/Element or child list shared. non-trivial = distinct histories with >=1 mutating call.')
 ASSUMPTIONS = ['qualified paths are generated only for segments whose map node has a first-element ID qualifier list (elsewhere the qualifier is ignored by design)',
                'values written contain no delimiter characters; the link from a copy\'s root to its enclosing context is not counted as shared mutable data']
-REQUIRED_COUNTERS = ['ops:delete_segment:near-miss', 'ops:from-below', 'ops:from-below:depth-2', 'histories', 'ops:get', 'ops:set', 'ops:count', 'ops:add_segment', 'ops:add_loop', 'ops:delete_segment', 'ops:delete_node', 'ops:copy', 'ops:add_node',
+REQUIRED_COUNTERS = ['paths:qualifier-held-in-a-composite', 'ops:delete_segment:near-miss', 'ops:from-below', 'ops:from-below:depth-2', 'histories', 'ops:get', 'ops:set', 'ops:count', 'ops:add_segment', 'ops:add_loop', 'ops:delete_segment', 'ops:delete_node', 'ops:copy', 'ops:add_node',
                      'ops:garbage', 'serialisations-compared', 'copy:parent-path-edits']
 MIN_CASES = {'quick': 1200, 'thorough': 40000}
 WATCHDOG_S = {'quick': 1200, 'thorough': 7200}
@@ -98,12 +98,30 @@ class MLoop(object):
         return [s.norm() for s in self.segs()]
 
 
-def qual_of(node):
-    """(codes) when the map node matches on a first-element ID qualifier, else None"""
+def qual_spec(node):
+    """(codes, element position, component position) of the ID qualifier a qualified path SEG[code] is compared with: the required first
+    element, ENT02, the first component of a composite first element, HL03 - or None when the node has no such qualifier"""
     k = node.children
-    if k and k[0].kind == 'ele' and gen_doc.DE().get(k[0].data_ele, ('?',))[0] == 'ID' and k[0].usage == 'R' and k[0].codes:
-        return k[0].codes
+
+    def is_id(n):
+        return gen_doc.DE().get(n.data_ele, ('?',))[0] == 'ID'
+    if not k:
+        return None
+    if k[0].kind == 'ele' and is_id(k[0]) and k[0].usage == 'R' and k[0].codes:
+        return (k[0].codes, 1, None)
+    if node.id == 'ENT' and len(k) > 1 and k[1].kind == 'ele' and is_id(k[1]) and k[1].codes:
+        return (k[1].codes, 2, None)
+    if k[0].kind == 'comp' and k[0].children and is_id(k[0].children[0]) and k[0].children[0].codes:
+        return (k[0].children[0].codes, 1, 1)
+    if node.id == 'HL' and len(k) > 2 and k[2].kind == 'ele' and k[2].codes:
+        return (k[2].codes, 3, None)
     return None
+
+
+def qual_of(node):
+    """(codes) when the map node matches on an ID qualifier, else None"""
+    q = qual_spec(node)
+    return q[0] if q is not None else None
 
 
 def seg_matches(ms, sid, qual):
@@ -112,9 +130,9 @@ def seg_matches(ms, sid, qual):
         return False
     if qual is None:
         return True
-    codes = qual_of(ms.node)
-    if codes is not None:
-        return qual in codes and ms.get(1, None) == qual
+    q = qual_spec(ms.node)
+    if q is not None:
+        return qual in q[0] and ms.get(q[1], q[2]) == qual
     return True     # no qualifier on this node (only generated for qualifier nodes; kept for completeness)
 
 
@@ -303,9 +321,12 @@ class History(object):
             return None
         s = self.rng.choice(segs)
         qual = None
-        codes = qual_of(s.node)
+        q = qual_spec(s.node)
+        codes = q[0] if q is not None else None
         if codes is not None and self.rng.random() < 0.7:
-            qual = s.get(1, None) if self.rng.random() < 0.8 else self.rng.choice(codes)
+            qual = s.get(q[1], q[2]) if self.rng.random() < 0.8 else self.rng.choice(codes)
+            if q[2] is not None:
+                self.ctx.count('paths:qualifier-held-in-a-composite')
         return p, s.sid, qual
 
     def path_text(self, p, sid=None, qual=None, e=None, c=None):
@@ -342,8 +363,8 @@ class History(object):
         c = self.rng.choice([None, None, None, 1, 2, 4])
         v = self.rng.choice(['NEWVAL', 'X', '12', '', 'A B', 'Q9Q9'])
         ms = m_first_segment(self.model, list(p), sid, qual)
-        if ms is not None and e == 1 and qual_of(ms.node) is not None:
-            e = 2           # keep the match qualifier intact so later qualified paths stay meaningful
+        if ms is not None and qual_spec(ms.node) is not None and e == qual_spec(ms.node)[1]:
+            e = e + 1       # keep the match qualifier intact so later qualified paths stay meaningful
         if ms is not None and ms.sid in ('HL', 'LX') and e <= 3:
             e = 4
         path = self.path_text(p, sid, qual, e, c)
